@@ -318,10 +318,38 @@ def rewrap (item key : Str) : Str :=
 
 /-! ## `string_replace_map` -/
 
+/-- How `string_replace_map` consults its reverse maps, and what the un-nesting loop does with
+    a placeholder-shaped text that is not a key of the map.
+
+    * `lookupTrimmed = false` : `rev_string_map.get(item)` — the FULL item, delimiters included,
+      although the map is keyed by the trimmed text (the code before commit 979b666: the lookup
+      could only hit by accident, and then the item gained a second pair of delimiters);
+      `true` : `.get(trimmed)`.
+    * `separateParenMap = true` : parenthesised groups have their own reverse map
+      (`rev_paren_map`), so a group never shares a key with a string or a real constant.
+    * `foreignKeyRaises = true` : `string_map[inc_key]` raises `KeyError` (before c764ae8);
+      `false` : guarded by `if inc_key in string_map`. -/
+structure Discipline where
+  lookupTrimmed : Bool
+  separateParenMap : Bool
+  foreignKeyRaises : Bool
+deriving Repr, DecidableEq
+
+/-- the code before the fixes 979b666 / c764ae8 (kept for the defect witnesses) -/
+def Discipline.legacy : Discipline :=
+  { lookupTrimmed := false, separateParenMap := false, foreignKeyRaises := true }
+/-- the code at /repo HEAD -/
+def Discipline.repaired : Discipline :=
+  { lookupTrimmed := true, separateParenMap := true, foreignKeyRaises := false }
+
+/-- THE ONE-LINE SWITCH: the discipline of `stringReplaceMap`, the mirror of /repo HEAD. -/
+def discipline : Discipline := .repaired
+
 /-- state threaded through the three phases -/
 structure SrmState where
   map : Map := []          -- string_map
   rev : Map := []          -- rev_string_map
+  revParen : Map := []     -- rev_paren_map (used when `separateParenMap`)
   strIdx : Nat := 0
   constIdx : Nat := 0
   parensIdx : Nat := 0
@@ -330,11 +358,11 @@ structure SrmState where
 deriving Repr, DecidableEq
 
 /-- body of the first `for` loop; returns the text appended to `items` -/
-def phase1Step (st : SrmState) (item : Seg) : SrmState × Str :=
+def phase1Step (d : Discipline) (st : SrmState) (item : Seg) : SrmState × Str :=
   match item with
   | .quoted s =>
     if !isSimple (interior s) then
-      match st.rev.get? s with
+      match st.rev.get? (if d.lookupTrimmed then interior s else s) with
       | some key => (st, rewrap s key)
       | none =>
         let idx := st.strIdx + 1
@@ -345,11 +373,11 @@ def phase1Step (st : SrmState) (item : Seg) : SrmState × Str :=
     else (st, s)
   | .plain s => (st, s)
 
-def phase1 : SrmState → List Seg → SrmState × Str
+def phase1 (d : Discipline) : SrmState → List Seg → SrmState × Str
   | st, [] => (st, [])
   | st, item :: items =>
-    let r := phase1Step st item
-    let r' := phase1 r.1 items
+    let r := phase1Step d st item
+    let r' := phase1 d r.1 items
     (r'.1, r.2 ++ r'.2)
 
 /-- body of the `finditer` loop -/
@@ -368,64 +396,71 @@ def phase2 (st : SrmState) (newline : Str) : SrmState × Str :=
   (expConsts newline).foldl phase2Step (st, newline)
 
 /-- body of the `splitparen` loop -/
-def phase3Step (st : SrmState) (item : PItem) : SrmState × Str :=
+def phase3Step (d : Discipline) (st : SrmState) (item : PItem) : SrmState × Str :=
   match item with
   | .paren s =>
     if !isSimple (strip (interior s)) then
-      match st.rev.get? s with
+      let rmap := if d.separateParenMap then st.revParen else st.rev
+      match rmap.get? (if d.lookupTrimmed then strip (interior s) else s) with
       | some key => (st, rewrap s key)
       | none =>
         let idx := st.parensIdx + 1
         let key := exprKey idx
         let trimmed := strip (interior s)
-        ({ st with parensIdx := idx, map := st.map.set key trimmed, rev := st.rev.set trimmed key,
+        ({ st with parensIdx := idx, map := st.map.set key trimmed,
+                   rev := if d.separateParenMap then st.rev else st.rev.set trimmed key,
+                   revParen := if d.separateParenMap then st.revParen.set trimmed key else st.revParen,
                    exprKeys := st.exprKeys ++ [key] },
           rewrap s key)
     else (st, s)
   | .plain s => (st, s)
 
-def phase3 : SrmState → List PItem → SrmState × Str
+def phase3 (d : Discipline) : SrmState → List PItem → SrmState × Str
   | st, [] => (st, [])
   | st, item :: items =>
-    let r := phase3Step st item
-    let r' := phase3 r.1 items
+    let r := phase3Step d st item
+    let r' := phase3 d r.1 items
     (r'.1, r.2 ++ r'.2)
 
 /-- `for inc_key in included_keys: entry = entry.replace(inc_key, string_map[inc_key], 1)`;
     `none` = `KeyError` -/
-def unnestEntry (m : Map) : Str → List Str → Option Str
+def unnestEntry (d : Discipline) (m : Map) : Str → List Str → Option Str
   | entry, [] => some entry
   | entry, inc :: incs =>
     match m.get? inc with
-    | none => none
-    | some v => unnestEntry m (replaceFirst inc v entry) incs
+    | none => if d.foreignKeyRaises then none else unnestEntry d m entry incs
+    | some v => unnestEntry d m (replaceFirst inc v entry) incs
 
 /-- the final loop over `expr_keys + const_keys` -/
-def unnest : Map → List Str → Option Map
+def unnest (d : Discipline) : Map → List Str → Option Map
   | m, [] => some m
   | m, key :: keys =>
     match m.get? key with
     | none => none
     | some entry =>
       let included := keyFindAll entry
-      if included.isEmpty then unnest m keys
-      else match unnestEntry m entry included with
+      if included.isEmpty then unnest d m keys
+      else match unnestEntry d m entry included with
       | none => none
-      | some entry' => unnest (m.set key entry') keys
+      | some entry' => unnest d (m.set key entry') keys
 
 structure SrmResult where
   text : Str
   map : Map
 deriving Repr, DecidableEq
 
-/-- `string_replace_map(line, lower)`; `none` = a `KeyError` escapes -/
-def stringReplaceMap (line : Str) (lower : Bool := false) : Option SrmResult :=
-  let r1 := phase1 {} (splitquote line none lower).1
+/-- `string_replace_map(line, lower)` under a given discipline; `none` = a `KeyError` escapes -/
+def stringReplaceMapWith (d : Discipline) (line : Str) (lower : Bool := false) : Option SrmResult :=
+  let r1 := phase1 d {} (splitquote line none lower).1
   let r2 := phase2 r1.1 r1.2
-  let r3 := phase3 r2.1 (splitparen r2.2)
-  match unnest r3.1.map (r3.1.exprKeys ++ r3.1.constKeys) with
+  let r3 := phase3 d r2.1 (splitparen r2.2)
+  match unnest d r3.1.map (r3.1.exprKeys ++ r3.1.constKeys) with
   | none => none
   | some m => some { text := r3.2, map := m }
+
+/-- `string_replace_map(line, lower)` as it is in /repo -/
+def stringReplaceMap (line : Str) (lower : Bool := false) : Option SrmResult :=
+  stringReplaceMapWith discipline line lower
 
 /-- `StringReplaceDict.__call__` -/
 def applyMap (m : Map) (line : Str) : Str :=
